@@ -959,7 +959,7 @@ IDENTITY_KEYS = {
     "core::ops::Deref::deref", "core::ops::DerefMut::deref_mut",
     "core::ops::Deref::deref@core::cell::Ref", "core::ops::DerefMut::deref_mut@core::cell::RefMut",
     "core::ops::Deref::deref@core::cell::RefMut",
-    "core::cell::RefCell::borrow", "core::cell::RefCell::borrow_mut",
+    "core::cell::RefCell::borrow", "core::cell::RefCell::borrow_mut", "core::cell::RefCell::get_mut",
     "core::convert::AsRef::as_ref", "core::convert::AsRef::as_ref@alloc::vec::Vec",
     "core::convert::AsRef::as_ref@alloc::string::String",
     "core::iter::Iterator::by_ref", "core::iter::IntoIterator::into_iter",
